@@ -15,6 +15,15 @@ The worker returns exit statuses, stdout lengths and SHA-256 digests and snapsho
 complete script, and every exit status is 1 iff the model's cost is positive), evaluated with vm_compute.
 Python only generates, drives, hashes, serialises and counts.
 
+Warm-process stream ("across repeated calls in one process"): the cases are grouped into batches (ordinary generated
+pairs mixed with FAMILIES of pairs that differ only in scalar types 1 / 1.0 / true / "1", near-duplicates and
+exact repetitions); for every batch ONE child process per order (forward, reversed; thorough: also shuffled) calls
+graphtage.__main__.main(argv) for every case of the batch in sequence - the same entry point and flags as the fresh
+runs, stdout captured by a StringIO whose close() is a no-op.  Every such call becomes one more run of its case,
+tagged (ro_warm = order, ro_pos = position); holds_C07 requires it to equal the fresh-process result.  A failing
+warm run is replayed from its documents, flags and the PRECEDING cases of that process (reduced to one preceding
+case when a single one suffices).
+
 Translator pass: translator/gen_det.py (registered below) lists every site of graphtage/*.py where set /
 interval-tree order, id(), hash() or the environment can flow into behaviour; a site missing from its audited
 table is a translator error, i.e. a broken tie.
@@ -150,9 +159,92 @@ def run_once(argv, seed, alloc, site_dir):
         env['PYTHONMALLOC'] = 'malloc'
     p = subprocess.run([sys.executable] + argv, stdout=subprocess.PIPE, stderr=subprocess.PIPE, env=env, timeout=300)
     status = 99 if b'Traceback' in p.stderr else p.returncode
-    return {'seed': seed, 'alloc': alloc, 'status': status, 'len': len(p.stdout), 'digest': _digest(p.stdout),
+    return {'seed': seed, 'alloc': alloc, 'warm': 0, 'pos': 0, 'status': status, 'len': len(p.stdout), 'digest': _digest(p.stdout),
             'out': p.stdout[:3000].decode('utf-8', 'replace'),
             'err': p.stderr[-600:].decode('utf-8', 'replace') if status == 99 else ''}
+
+
+WARM_DRIVER = r"""
+import hashlib, io, json, os, sys, traceback
+class _Out(io.StringIO):
+    def close(self):
+        pass
+    def isatty(self):
+        return False
+jobs = json.loads(sys.stdin.read())
+real = sys.stdout
+import graphtage.__main__ as gm
+# importing graphtage calls colorama.init(), which replaces sys.stdout by a wrapper that strips ANSI codes when the
+# underlying stream is not a terminal; main() must see the capture buffer through the same kind of wrapper
+after_import = sys.stdout
+wrapped = after_import is not real
+if wrapped:
+    import colorama.initialise as _ci
+res = []
+for argv in jobs:
+    buf = _Out()
+    sys.stdout = _ci.wrap_stream(buf, None, None, False, True) if wrapped else buf
+    tb = ''
+    try:
+        try:
+            st = gm.main(['graphtage'] + argv)
+        except SystemExit as e:
+            st = e.code if isinstance(e.code, int) else (0 if e.code is None else 1)
+    except BaseException:
+        st = 99
+        tb = traceback.format_exc()[-600:]
+    finally:
+        sys.stdout = after_import
+    data = buf.getvalue().encode('utf-8')
+    res.append({'status': st, 'len': len(data), 'sha': hashlib.sha256(data).hexdigest(), 'out': buf.getvalue()[:3000], 'err': tb})
+    if st == 99:
+        break          # graphtage's process-global printer state is unusable after an exception
+real.write('@@W ' + json.dumps(res) + chr(10))
+real.flush()
+os._exit(0)
+"""
+ORDERS = {'forward': 1, 'reversed': 2, 'shuffled': 3, 'replay': 4}
+
+
+def impl_warm(item):
+    """item: {'cases': [{'a','b','opts','mode','cid'}, ..] in execution order, 'order': name, 'dir', 'idx'}.
+    One child process runs main() on every case in sequence."""
+    import shutil
+    import subprocess
+    dirname = os.path.join(item['dir'], f'w{item["idx"]}')
+    os.makedirs(dirname, exist_ok=True)
+    site_dir = _site_dir(item['dir'])
+    try:
+        jobs = []
+        for k, c in enumerate(item['cases']):
+            pa, pb = os.path.join(dirname, f'{k}_a.json'), os.path.join(dirname, f'{k}_b.json')
+            with open(pa, 'w') as f:
+                json.dump(c['a'], f)
+            with open(pb, 'w') as f:
+                json.dump(c['b'], f)
+            jobs.append(['--no-status'] + flags_of(c) + [pa, pb])
+        env = dict(os.environ)
+        env['PYTHONHASHSEED'] = str(item.get('seed', 0))
+        env['PYTHONPATH'] = os.pathsep.join([site_dir, common.REPO])
+        env['PYTHONDONTWRITEBYTECODE'] = '1'
+        for v in ('OMP_NUM_THREADS', 'OPENBLAS_NUM_THREADS', 'MKL_NUM_THREADS'):
+            env[v] = '1'
+        env.pop('C07_ALLOC', None)
+        env.pop('PYTHONMALLOC', None)
+        p = subprocess.run([sys.executable, '-c', WARM_DRIVER], input=json.dumps(jobs).encode(), stdout=subprocess.PIPE,
+                           stderr=subprocess.PIPE, env=env, timeout=60 + 30 * len(jobs))
+        line = [l for l in p.stdout.decode('utf-8', 'replace').split('\n') if l.startswith('@@W ')]
+        if not line:
+            raise RuntimeError(f'warm process gave no result: rc={p.returncode} {p.stderr[-400:]!r}')
+        res = json.loads(line[-1][4:])
+        return {'order': item['order'],
+                'results': [{'cid': c['cid'], 'seed': item.get('seed', 0), 'alloc': 0, 'warm': ORDERS[item['order']], 'pos': k,
+                             'status': r['status'], 'len': r['len'], 'digest': int(r['sha'], 16), 'out': r['out'], 'err': r['err']}
+                            for k, (c, r) in enumerate(zip(item['cases'], res))],
+                'executed': len(res)}
+    finally:
+        shutil.rmtree(dirname, ignore_errors=True)
+
 
 
 def snapshot(root):
@@ -251,7 +343,8 @@ def impl_case(item):
 # ------------------------------------------------------------------ Gallina terms
 
 def case_term(r):
-    runs = ';'.join(f'Build_run_obs {sl.z(x["seed"])} {sl.z(x["alloc"])} {sl.z(x["status"])} {x["len"]} {x["digest"]}'
+    runs = ';'.join(f'Build_run_obs {sl.z(x["seed"])} {sl.z(x["alloc"])} {x.get("warm", 0)} {x.get("pos", 0)} '
+                    f'{sl.z(x["status"])} {x["len"]} {x["digest"]}'
                     for x in r['runs'])
     inp = ';'.join(f'({ln}, {dg})' for ln, dg in r['inproc'])
     snaps = ';'.join(f'Build_snap {b} {a}' for _, b, a in r['snaps'])
@@ -321,6 +414,102 @@ def g_pair(rng, k):
     return a, b
 
 
+# ---- families for the warm-process stream: pairs that differ only in scalar types, near-duplicates, repetitions
+
+def retype_some(rng, v, how, p=0.6):
+    """v with some of its numbers retyped: how = 'float' (1 -> 1.0), 'bool' (0/1 -> false/true), 'str' (1 -> "1"),
+    'int' (1.0 / true -> 1).  Python-equal values of different type: 1 == 1.0 == True, hash alike."""
+    if isinstance(v, list):
+        return [retype_some(rng, x, how, p) for x in v]
+    if isinstance(v, dict):
+        return {k: retype_some(rng, x, how, p) for k, x in v.items()}
+    if rng.random() >= p:
+        return v
+    if isinstance(v, bool):
+        return {'int': int(v), 'float': float(v), 'str': str(int(v))}.get(how, v)
+    if isinstance(v, int):
+        if how == 'float':
+            return float(v)
+        if how == 'bool' and v in (0, 1):
+            return bool(v)
+        if how == 'str':
+            return str(v)
+        return v
+    if isinstance(v, float) and v == int(v):
+        return {'int': int(v), 'str': str(int(v)), 'bool': bool(v) if v in (0.0, 1.0) else v}.get(how, v)
+    return v
+
+
+def g_int_doc(rng):
+    ints = lambda n: [rng.choice([0, 1, 1, 2, 5, 7, 10]) for _ in range(n)]      # noqa: E731
+    r = rng.random()
+    if r < 0.45:
+        return ints(rng.randint(2, 4))
+    if r < 0.65:
+        return {rng.choice(['k', 'a', 'key']): ints(rng.randint(2, 4))}
+    if r < 0.8:
+        return [ints(rng.randint(1, 3)) for _ in range(rng.randint(1, 3))]
+    if r < 0.9:
+        return {k: rng.choice([0, 1, 2, 5]) for k in rng.sample(['a', 'b', 'c', 'k1'], rng.randint(2, 3))}
+    return [{'a': rng.choice([0, 1, 2])}, rng.choice([0, 1, 5])]
+
+
+def change_ints(rng, v):
+    """Same shape, some integers replaced by other integers, at least one 0/1 kept where there is one."""
+    if isinstance(v, list):
+        return [change_ints(rng, x) for x in v]
+    if isinstance(v, dict):
+        return {k: change_ints(rng, x) for k, x in v.items()}
+    if isinstance(v, int) and not isinstance(v, bool) and v not in (0, 1) and rng.random() < 0.7:
+        return v + rng.choice([1, 1, 2, 3])
+    if isinstance(v, int) and not isinstance(v, bool) and rng.random() < 0.15:
+        return 1 - v if v in (0, 1) else v
+    return v
+
+
+def g_family(rng, fid):
+    a = g_int_doc(rng)
+    b = change_ints(rng, a)
+    opts = [rng.choice(['auto', 'auto', 'match', 'none']), rng.choice(['on', 'on', 'off', 'off', 'same'])]
+    mode = rng.choice(['default', 'default', 'default', 'e', 'd'])
+    members = [(a, b)]
+    for how in rng.sample(['float', 'bool', 'str', 'float'], 3):
+        members.append((a, retype_some(rng, b, how)))
+    members.append((retype_some(rng, a, rng.choice(['float', 'bool'])), b))
+    members.append((a, b))                                           # exact repetition of the first member
+    if rng.random() < 0.5:
+        members.append((a, sl.mutate(rng, b)))                       # near-duplicate
+    return [{'a': x, 'b': y, 'opts': list(opts), 'mode': mode, 'fam': fid} for x, y in members]
+
+
+def warm_items(items, rng, tier, workdir, start):
+    """Batches of cases for the warm processes: ordinary cases in chunks, whole families distributed over the batches;
+    every batch in a seeded shuffled order, forward and reversed (thorough: one more shuffle)."""
+    plain = [it for it in items if 'fam' not in it and not it.get('probe')]
+    fams = {}
+    for it in items:
+        if 'fam' in it:
+            fams.setdefault(it['fam'], []).append(it)
+    size = 28
+    nb = max(1, (len(plain) + size - 1) // size)
+    batches = [plain[i * size:(i + 1) * size] for i in range(nb)]
+    for j, fid in enumerate(sorted(fams)):
+        batches[j % nb] += fams[fid]
+    out = []
+    for bt in batches:
+        seq = list(bt)
+        rng.shuffle(seq)
+        orders = [('forward', seq), ('reversed', seq[::-1])]
+        if tier != 'quick':
+            sh = list(seq)
+            rng.shuffle(sh)
+            orders.append(('shuffled', sh))
+        for name, sq in orders:
+            out.append({'warm': True, 'order': name, 'idx': start + len(out), 'dir': workdir,
+                        'cases': [{'a': c['a'], 'b': c['b'], 'opts': c['opts'], 'mode': c['mode'], 'cid': c['idx']} for c in sq]})
+    return out
+
+
 def run_plan(rng, tier, k=None):
     k = k or (4 if tier == 'quick' else 32)
     base = rng.randrange(1, 1 << 20)
@@ -333,7 +522,7 @@ def run_plan(rng, tier, k=None):
     return runs
 
 
-def gen_items(tier, rng, workdir, n=None, k=None):
+def gen_items(tier, rng, workdir, n=None, k=None, families=None):
     items = []
     mode_names = ['default', 'e', 'd', 'default', 'color', 'default', 'j']
     if os.path.exists(CORPUS):
@@ -345,7 +534,7 @@ def gen_items(tier, rng, workdir, n=None, k=None):
                                   'corpus': True})
     for a, b in sl.FIXED_PAIRS[12:]:
         items.append({'a': a, 'b': b, 'opts': list(sl.OPTION_SETS[len(items) % 9]), 'mode': mode_names[len(items) % 7]})
-    n = n if n is not None else (110 if tier == 'quick' else 700)
+    n = n if n is not None else (96 if tier == 'quick' else 700)
     for i in range(n):
         a, b = g_pair(rng, i)
         if i % 8 in (0, 1) and i % 3 != 2:
@@ -353,10 +542,15 @@ def gen_items(tier, rng, workdir, n=None, k=None):
         else:
             opts = list(sl.OPTION_SETS[(i * 5 + i // 8) % 9])
         items.append({'a': a, 'b': b, 'opts': opts, 'mode': mode_names[i % 7]})
+    nfam = families if families is not None else (8 if tier == 'quick' else 60)
+    for fid in range(nfam):
+        items += g_family(rng, fid)
     for i, it in enumerate(items):
         it['idx'] = i
         it['dir'] = workdir
         it['runs'] = run_plan(rng, tier, k)
+        if 'fam' in it and tier == 'quick':
+            it['runs'] = it['runs'][:2]          # the fresh baseline: two seeds; the family's stream is the warm one
     return items
 
 
@@ -368,7 +562,11 @@ def probe_items(tier, rng, workdir, start):
 
 
 def pub(it):
-    return {k: it[k] for k in ('a', 'b', 'opts', 'mode', 'runs', 'probe') if k in it}
+    return {k: it[k] for k in ('a', 'b', 'opts', 'mode', 'runs', 'probe', 'warm_sequence') if k in it}
+
+
+def pub_case(c):
+    return {k: c[k] for k in ('a', 'b', 'opts', 'mode')}
 
 
 def nontrivial(it):
@@ -377,7 +575,32 @@ def nontrivial(it):
 
 # ------------------------------------------------------------------ check / replay
 
-def evaluate(run, wd, st, items, tag='cases', count=True):
+WARM_SEQS = {}       # id of a warm batch run -> its cases in execution order (for the replay of a failing warm run)
+
+
+def merge_warm(run, ok_by_idx, warm):
+    """Run the warm batches and append every call as one more run of its case."""
+    if not warm:
+        return 0
+    wres = common.run_impl('pC07', 'impl_warm', warm, timeout_item=1800)
+    n = 0
+    for w, r in zip(warm, wres):
+        if 'ok' not in r:
+            run.violation({'kind': 'internal-error', 'warm_batch': {'order': w['order'], 'cases': [pub_case(c) for c in w['cases']]},
+                           'result': r, 'note': 'the warm process (main() called for every case in sequence) did not report'})
+            continue
+        key = f'{w["idx"]}'
+        WARM_SEQS[key] = w['cases']
+        for x in r['ok']['results']:
+            tgt = ok_by_idx.get(x['cid'])
+            if tgt is not None:
+                x['seq'] = key
+                tgt['runs'].append(x)
+                n += 1
+    return n
+
+
+def evaluate(run, wd, st, items, tag='cases', count=True, warm=None):
     res = common.run_impl('pC07', 'impl_case', items, timeout_item=900)
     # a worker whose graphtage state was poisoned by an earlier exception may fail on an innocent item: retry alone
     retry = [i for i, r in enumerate(res) if 'ok' not in r]
@@ -397,6 +620,7 @@ def evaluate(run, wd, st, items, tag='cases', count=True):
                            'note': 'running the diff repeatedly / snapshotting raised in the worker'})
     if not ok:
         return ok, [], []
+    run.cov['warm_runs'] = run.cov.get('warm_runs', 0) + merge_warm(run, {it['idx']: r for it, r in ok if not it.get('probe')}, warm)
     if st['models_ok']:
         header, terms = HEADER_MODEL, [corr_term(r) for _, r in ok]
         evals = ['bad_cases (fun c => holds_C07 (dr_case c))', 'bad_cases corr_C07']
@@ -417,7 +641,8 @@ def describe(it, r):
     first = runs[0] if runs else None
     other = next((x for x in runs[1:] if (x['status'], x['len'], x['digest']) != (first['status'], first['len'], first['digest'])), None)
     obj = {'kind': 'holds_C07-false', 'input': pub(it), 'flags': flags_of(it) if not it.get('probe') else ['-c', it['probe']],
-           'observed': [{k: x[k] for k in ('seed', 'alloc', 'status', 'len')} | {'sha256': '%064x' % x['digest']} for x in runs],
+           'observed': [{k: x.get(k, 0) for k in ('seed', 'alloc', 'warm', 'pos', 'status', 'len')} | {'sha256': '%064x' % x['digest']}
+                        for x in runs],
            'inproc': [[ln, '%064x' % dg] for ln, dg in r['inproc']],
            'snapshots_changed': [lab for lab, b, a in r['snaps'] if b != a],
            'crashed': [x['err'] for x in runs if x['status'] == 99][:1]}
@@ -426,6 +651,42 @@ def describe(it, r):
         obj['stdout_first'] = first['out']
         obj['stdout_other'] = other['out']
         obj['input']['runs'] = [[first['seed'], first['alloc']], [other['seed'], other['alloc']]]
+        if other.get('warm'):
+            # the differing run is call number `pos` of a warm process: the replay is the fresh run + the same sequence
+            seq = WARM_SEQS.get(other.get('seq'), [])
+            prec = [pub_case(c) for c in seq[:other['pos']]] if seq else other.get('preceding', [])
+            obj['warm'] = {'order': [k for k, v in ORDERS.items() if v == other['warm']][0], 'position': other['pos'],
+                           'preceding': prec}
+            obj['differing_runs'] = [[first['seed'], first['alloc'], 'fresh process'],
+                                     [other['seed'], 0, f'warm process, after {len(prec)} other diff(s)']]
+            obj['input']['runs'] = [[first['seed'], first['alloc']]]
+            obj['input']['warm_sequence'] = prec + [pub_case(it)]
+    return obj
+
+
+def reduce_warm(wd, it, r, obj):
+    """Try to shorten the preceding cases of a failing warm run to ONE case.  The candidates are selected by comparing
+    digests (search heuristics); the reduced replay is only used if holds_C07 (Coq) is false on it."""
+    prec = obj.get('warm', {}).get('preceding') or []
+    if len(prec) <= 1:
+        return obj
+    first = r['runs'][0]
+    tgt = pub_case(it)
+    jobs = [{'warm': True, 'order': 'replay', 'idx': 900000 + j, 'dir': it['dir'],
+             'cases': [dict(c, cid=-1), dict(tgt, cid=0)]} for j, c in enumerate(prec)]
+    res = common.run_impl('pC07', 'impl_warm', jobs, timeout_item=600)
+    for c, w in zip(prec, res):
+        if 'ok' not in w or len(w['ok']['results']) < 2:
+            continue
+        x = w['ok']['results'][1]
+        if (x['status'], x['len'], x['digest']) != (first['status'], first['len'], first['digest']):
+            x = dict(x, preceding=[c], seq=None)
+            r2 = {'runs': [first, x], 'inproc': [], 'snaps': []}
+            bad, err = common.coq_eval_cases(wd, 'reduce', HEADER_SPEC, [case_term(r2)], ['bad_cases holds_C07'])
+            if not err and bad[0]:
+                obj2 = describe(it, r2)
+                obj2['reduced_from'] = {'order': obj['warm']['order'], 'position': obj['warm']['position']}
+                return obj2
     return obj
 
 
@@ -447,7 +708,11 @@ def check(tier, seed):
         os.makedirs(impl_dir, exist_ok=True)
         items = gen_items(tier, rng, impl_dir)
         probes = probe_items(tier, rng, impl_dir, len(items))
-        ok, bad_holds, bad_corr = evaluate(run, wd, st, items + probes)
+        warm = warm_items(items, rng, tier, impl_dir, len(items) + len(probes))
+        ok, bad_holds, bad_corr = evaluate(run, wd, st, items + probes, warm=warm)
+        run.cov['warm_batches'] = {'processes': len(warm), 'cases_per_process': [len(w['cases']) for w in warm][:4],
+                                   'orders': sorted({w['order'] for w in warm}),
+                                   'family_cases': sum(1 for it in items if 'fam' in it)}
         known = open_known()
         probe_state = {}
         n_viol = 0
@@ -458,7 +723,7 @@ def check(tier, seed):
                 continue
             n_viol += 1
             if n_viol <= 3:
-                run.violation(describe(it, r))
+                run.violation(reduce_warm(wd, it, r, describe(it, r)))
         for it, r in ok:
             if it.get('probe'):
                 probe_state.setdefault(it['probe'], 'deterministic on this run')
@@ -486,12 +751,17 @@ def check(tier, seed):
         if (st['broken'] or bad_corr) and not run.violations:
             # tie broken (a proof / the translator pass / the correspondence no longer checks) and no failing input yet:
             # search with more pairs and more seeds
-            more = gen_items('thorough', random.Random(seed * 7919 + 1), impl_dir, n=260, k=8)
+            rng2 = random.Random(seed * 7919 + 1)
+            more = gen_items('thorough', rng2, impl_dir, n=260, k=8, families=30)
             for j, it in enumerate(more):
                 it['idx'] = 100000 + j
-            ok2, bh2, bc2 = evaluate(run, wd, st, more, tag='search', count=False)
+                if 'fam' in it:
+                    it['runs'] = it['runs'][:2]
+            ok2, bh2, bc2 = evaluate(run, wd, st, more, tag='search', count=False,
+                                     warm=warm_items(more, rng2, 'thorough', impl_dir, 200000))
             if bh2:
-                run.violation(describe(*ok2[bh2[0]]))
+                it2, r2 = ok2[bh2[0]]
+                run.violation(reduce_warm(wd, it2, r2, describe(it2, r2)))
             elif not run.violations:
                 first = ok[bad_corr[0]] if bad_corr else (ok2[bc2[0]] if bc2 else None)
                 what = st['broken'] or {'stage': 'correspondence', 'statement': 'corr_C07'}
@@ -506,7 +776,10 @@ def check(tier, seed):
                            'keys), nested lists of dicts, dicts of dicts, scriptlib random/mutated pairs; x 9 option sets x modes '
                            '(default, --only-edits, --edit-digest, --color, --condensed); each case: K PYTHONHASHSEEDs in fresh '
                            'processes + perturbed allocation history + PYTHONMALLOC=malloc, three in-process renderings, 10 '
-                           'before/after snapshots of the input trees; non-trivial = documents differ and one is a container; '
+                           'before/after snapshots of the input trees; warm-process stream: batches of ~28 ordinary cases + families of pairs '
+                           'differing only in scalar types (1 / 1.0 / true / "1"), exact repetitions and near-duplicates, each batch run '
+                           'by one process per order (forward, reversed) through graphtage.__main__.main, every call compared with the '
+                           'fresh-process result of its case; non-trivial = documents differ and one is a container; '
                            'distinct by (a, b, options, mode)')
         run.cov['samples'] = [pub(ok[i][0]) for i in range(0, min(n_cases, 100), 33)]
         run.cov['exhaustive'] = False
@@ -545,8 +818,20 @@ def replay(path):
             print(json.dumps(r)[:2000])
             print(f'VIOLATION property={PROP} replay={path}')
             return 1
+        if it.get('warm_sequence'):
+            seq = it['warm_sequence']
+            job = {'warm': True, 'order': 'replay', 'idx': 1, 'dir': it['dir'],
+                   'cases': [dict(c, cid=(0 if k == len(seq) - 1 else -1)) for k, c in enumerate(seq)]}
+            w = common.run_impl('pC07', 'impl_warm', [job], nproc=1, timeout_item=1800)[0]
+            if 'ok' not in w:
+                print(json.dumps(w)[:2000])
+                print(f'VIOLATION property={PROP} replay={path}')
+                return 1
+            for x in w['ok']['results']:
+                if x['cid'] == 0:
+                    r['ok']['runs'].append(dict(x, preceding=seq[:-1]))
         d = describe(it, r['ok'])
-        print(json.dumps({k: d[k] for k in ('flags', 'observed', 'snapshots_changed', 'differing_runs', 'stdout_first',
+        print(json.dumps({k: d[k] for k in ('flags', 'observed', 'snapshots_changed', 'differing_runs', 'warm', 'stdout_first',
                                             'stdout_other') if k in d}, indent=1)[:4000])
         bad, err = common.coq_eval_cases(wd, 'replay', HEADER_SPEC, [case_term(r['ok'])], ['bad_cases holds_C07'])
         if err or bad[0]:
